@@ -1,5 +1,39 @@
 import Ptn.C05.Model
-/-! Line-protocol handler for the C05 model (core Lean only). -/
+/-! Line-protocol handler for the C05 model (core Lean only).
+
+  trace first|second|twosite <last> <u0:h0> <u1:h1> …   → events `S:v:d`, `L:a:b:d`, `T:a:b:d`
+                                                          (d in half steps) or `none`
+-/
 namespace Ptn.C05
-def handle (args : List String) : String := "bad-op"
+
+def parseSeg (s : String) : Option Seg :=
+  match s.splitOn ":" with
+  | [a, b] => match a.toNat?, b.toNat? with
+    | some x, some y => some (x, y)
+    | _, _ => none
+  | _ => none
+
+def showEv : Ev → String
+  | .site v d => s!"S:{v}:{d}"
+  | .link a b d => s!"L:{a}:{b}:{d}"
+  | .two a b d => s!"T:{a}:{b}:{d}"
+
+def handle (args : List String) : String :=
+  match args with
+  | "trace" :: variant :: last :: segs =>
+    match last.toNat?, segs.mapM parseSeg with
+    | some l, some ss =>
+      let out : Option (Option (List Ev)) :=
+        match variant with
+        | "first" => some (some (first ss l))
+        | "second" => some (second ss l)
+        | "twosite" => some (twoSite ss l)
+        | _ => none
+      match out with
+      | none => "bad-op"
+      | some none => "none"
+      | some (some tr) => " ".intercalate (tr.map showEv)
+    | _, _ => "bad-op"
+  | _ => "bad-op"
+
 end Ptn.C05
